@@ -162,7 +162,7 @@ def dedupAdj : List AP → List AP
 /-- relay part of `unlockedSort`: dedupe through a map, then `slices.SortFunc` with `Addr.Compare`. -/
 def dedup : List Addr → List Addr
   | [] => []
-  | x :: xs => if xs.contains x then dedup xs else x :: dedup xs
+  | x :: xs => if xs.any (fun y => decide (y = x)) then dedup xs else x :: dedup xs
 
 def sortRelays (l : List Addr) : List Addr :=
   (dedup l).mergeSort (fun a b => !(b.lt a))
